@@ -24,7 +24,7 @@
          state in which a handler starts or ends or a client receives something
   every other action of the LTS is internal (τ); `admits` closes the state set under τ after each event.
 
-  actions for `run`: cn · sd.c.r · ac.c · rg.c · st.c · rd.c.n · re.c.<0|1> · ag.c · dp.c · eq.c · pt ·
+  actions for `run`: cn · sd.c.r · ac.c · rg.c · st.c · rd.c.n · re.c.<0|1> · ag.c · dp.c · eq.c · pt · pg ·
     hs.c.i hf.c.i hw.c.i hd.c.i · dc.c · sc · cl · ax · rc · ps · rr · cm · or · cb · cv.c · cc · ce · cx ·
     rR.c.i · rM.c · rX.c
 -/
@@ -151,10 +151,13 @@ def outputEnabled (cfg : Cfg) (s : State) : Bool :=
     | none => false
 
 /-- internal actions that may be enabled in `s` (a superset; `step` decides). Restrictions that only
-drop runs and never invent one: `age c` only while a `CloseIdles` pass still has `c` to visit; read
-errors only once the server is closing (the harness uses no read timeout and clients do not close
-first), and only the non-fatal kind (with `isClosed` both kinds make the receiver return). -/
-def tauActions (s : State) : List Action :=
+drop runs and never invent one: read errors only once the server is closing (the harness uses no
+read timeout and clients do not close first), and only the non-fatal kind (with `isClosed` both
+kinds make the receiver return); the clock action `age c` only immediately before `CloseIdles`
+looks at `c` (see `visit`). `fine` = the steps of a `CloseIdles` call are interleaved with
+everything else one by one (needed when the history contains a yield event); otherwise a call is
+executed as one block (`macroPass`). -/
+def tauActions (fine : Bool) (s : State) : List Action :=
   let perConn := (List.range s.conns.length).flatMap fun c =>
     match s.conns[c]? with
     | none => []
@@ -176,41 +179,88 @@ def tauActions (s : State) : List Action :=
         | some q =>
           match q.st with
           | .finished => [Action.write c i]
-          | .wrote _ => [Action.dec c i]
           | _ => []
         | none => []
-      let age : List Action :=
-        match s.pass with
-        | some p => if p.todo.contains c && !k.stale then [Action.age c] else []
+      recv ++ hs
+  perConn ++
+    [.pTake, .pGive, .setClosed, .acceptExit, .relCall, .pStop, .relRet, .closeMsg, .onShutdownRet, .ctxExpire] ++
+    (if fine then [.ciBegin, .ciClose, .ciEnd] else [])
+
+/-- `CloseIdles` looks at connection `c`: with the idle stamp as it is, and — if that makes a
+difference — with two more seconds on the clock -/
+def visit (cfg : Cfg) (s : State) (c : Nat) : List State :=
+  let plain := (step cfg s (.ciVisit c)).toList
+  let aged :=
+    match s.conns[c]? with
+    | some k =>
+      if k.numInvoke = 0 && !k.stale && k.registered then
+        match step cfg s (.age c) with
+        | some s1 => (step cfg s1 (.ciVisit c)).toList
         | none => []
-      recv ++ hs ++ age
-  let visits : List Action :=
-    match s.pass with
-    | some p => p.todo.map Action.ciVisit
+      else []
     | none => []
-  perConn ++ visits ++
-    [.pTake, .setClosed, .acceptExit, .relCall, .pStop, .relRet, .closeMsg, .onShutdownRet, .ciBegin,
-     .ciClose, .ciEnd, .ctxExpire]
+  plain ++ aged
+
+/-- one whole `CloseIdles` call without interleaving: `ciBegin`, every connection of the snapshot
+(each followed at once by its `Close()` if it was found idle), `ciEnd` -/
+def macroPass (cfg : Cfg) (s : State) : List State :=
+  match step cfg s .ciBegin with
+  | none => []
+  | some s0 =>
+    let todo := match s0.pass with | some p => p.todo | none => []
+    let after := todo.foldl (fun (acc : List State) c =>
+      acc.flatMap fun x =>
+        (visit cfg x c).map fun y =>
+          match step cfg y .ciClose with
+          | some z => z
+          | none => y) [s0]
+    after.filterMap fun x => step cfg x .ciEnd
+
+/-- all τ-successors of `s` -/
+def tauSuccs (cfg : Cfg) (fine : Bool) (s : State) : List State :=
+  (tauActions fine s).filterMap (step cfg s) ++
+    (if fine then
+      (match s.pass with
+       | some p => p.todo.flatMap (visit cfg s)
+       | none => [])
+     else macroPass cfg s)
 
 /-- ghost fields that no guard reads are erased so that equal behaviours are merged -/
-def canon (s : State) : State :=
+def erase (s : State) : State :=
   { s with msgTo := [], lastPass := [], conns := s.conns.map fun k => { k with sent := [], byIdles := false } }
 
+/-- every enabled deferred `numInvoke--` is executed at once. Doing it early only lowers `numInvoke`
+and frees workers earlier; whatever a later `numInvoke > 0` would have prevented (a close) is an
+internal step the run can simply not take, so no visible history is lost — and since only real
+`step`s are applied, none is invented. This keeps the state sets small (a finished handler is in one
+state, not three). -/
+def eagerDec (cfg : Cfg) (s : State) : State :=
+  (List.range s.conns.length).foldl (fun s c =>
+    match s.conns[c]? with
+    | some k =>
+      (List.range k.reqs.length).foldl (fun s i =>
+        match step cfg s (.dec c i) with
+        | some s' => s'
+        | none => s) s
+    | none => s) s
+
+def canonC (cfg : Cfg) (s : State) : State := erase (eagerDec cfg s)
+
 /-- close `seen` under τ-steps; `none` = budget exceeded -/
-partial def closure (cfg : Cfg) (budget : Nat) : List State → SSet → Option SSet
+partial def closure (cfg : Cfg) (fine : Bool) (budget : Nat) : List State → SSet → Option SSet
   | [], seen => some seen
   | s :: rest, seen =>
     if seen.size > budget then none
     else
-      let succs := (tauActions s).filterMap (fun a => (step cfg s a).map canon)
+      let succs := (tauSuccs cfg fine s).map (canonC cfg)
       let (todo, seen) := succs.foldl
         (fun (acc : List State × SSet) x =>
           if acc.2.contains x then acc else (x :: acc.1, acc.2.insert x)) (rest, seen)
-      closure cfg budget todo seen
+      closure cfg fine budget todo seen
 
-def startSet (cfg : Cfg) (budget : Nat) (ss : List State) : Option SSet :=
+def startSet (cfg : Cfg) (fine : Bool) (budget : Nat) (ss : List State) : Option SSet :=
   let seen := ss.foldl (fun (acc : SSet) x => acc.insert x) {}
-  closure cfg budget seen.toList seen
+  closure cfg fine budget seen.toList seen
 
 /-- `send` checks the ghost list `sent` (no request id twice per connection); the driver checks that
 up front so that `canon` may erase the list -/
@@ -219,30 +269,32 @@ def dupSend : List Ev → List (Nat × Nat) → Bool
   | .send c r :: es, seen => if seen.contains (c, r) then true else dupSend es ((c, r) :: seen)
   | _ :: es, seen => dupSend es seen
 
-partial def admitsLoop (cfg : Cfg) (budget : Nat) (toks : List String) :
+partial def admitsLoop (cfg : Cfg) (fine : Bool) (budget : Nat) (toks : List String) :
     List Ev → Nat → SSet → Nat → String
   | [], _, cur, mx => s!"ok {mx} {cur.size}"
   | e :: es, i, cur, mx =>
     let quietOk (s : State) : Bool :=
-      match startSet cfg budget [s] with
+      match startSet cfg fine budget [s] with
       | some cl => cl.fold (fun ok x => ok && !outputEnabled cfg x) true
       | none => true
     let nxt := cur.fold (fun (acc : List State) s =>
       match e with
       | .quiet => if quietOk s then s :: acc else acc
-      | _ => (fire cfg s e).map canon ++ acc) []
-    match startSet cfg budget nxt with
+      | _ => (fire cfg s e).map (canonC cfg) ++ acc) []
+    match startSet cfg fine budget nxt with
     | none => s!"budget {i}"
     | some nx =>
       if nx.isEmpty then s!"reject {i} {toks.getD i "?"} {cur.size}"
-      else admitsLoop cfg budget toks es (i + 1) nx (max mx nx.size)
+      else admitsLoop cfg fine budget toks es (i + 1) nx (max mx nx.size)
 
 def admits (cfg : Cfg) (budget : Nat) (toks : List String) (h : List Ev) : String :=
   if dupSend h [] then "reject 0 dup-send 0"
   else
-    match startSet cfg budget [canon init] with
+    -- a yield event needs the steps of CloseIdles one by one
+    let fine := h.any fun e => match e with | .yield _ => true | _ => false
+    match startSet cfg fine budget [canonC cfg init] with
     | none => "budget 0"
-    | some s0 => admitsLoop cfg budget toks h 0 s0 s0.size
+    | some s0 => admitsLoop cfg fine budget toks h 0 s0 s0.size
 
 def poolOf (n q : Nat) : Option (Nat × Nat) := if n = 0 then none else some (n, q)
 
@@ -257,7 +309,7 @@ def parseCfg (v : String) (n q : Nat) : Option Cfg :=
 
 def parseAct (tok : String) : Option Action :=
   match splitDots tok with
-  | ["cn"] => some .connect | ["pt"] => some .pTake | ["sc"] => some .shutdownCall
+  | ["cn"] => some .connect | ["pt"] => some .pTake | ["pg"] => some .pGive | ["sc"] => some .shutdownCall
   | ["cl"] => some .setClosed | ["ax"] => some .acceptExit | ["rc"] => some .relCall
   | ["ps"] => some .pStop | ["rr"] => some .relRet | ["cm"] => some .closeMsg
   | ["or"] => some .onShutdownRet | ["cb"] => some .ciBegin | ["cc"] => some .ciClose
@@ -291,7 +343,7 @@ def pstName : PSt → String
   | .live => "live" | .stopReq => "stopReq" | .stopping => "stopping" | .stopped => "stopped"
 
 def stName : HSt → String
-  | .queued => "q" | .running => "r" | .finished => "f"
+  | .queued => "q" | .handed => "h" | .running => "r" | .finished => "f"
   | .wrote true => "W" | .wrote false => "w" | .done true => "D" | .done false => "d"
 
 def b01 (b : Bool) : String := if b then "1" else "0"
